@@ -72,7 +72,7 @@ CHECKS = {
     ),
     "C12": dict(
         engine="apiwalk",
-        technique="breadth-first search over {register(bearer|custom|none), delete, notify with every per-hook outcome in {200,500,transport error,unreadable body}, restart} on two URLs for max_tries 1..3, state = webhooks table + counter model, successor = replay on a fresh SQLite store; call log of a scripted WebhookTargetClient and GET /webhook compared with the model after every step; every outcome sequence of length <=3 additionally through the production HTTP client against a loopback server, and two webhooks of every ordered pair of authorisation kinds served by one production client (both registered / first deleted / first deactivated): each target must receive exactly its own authorisation header and no stray one",
+        technique="breadth-first search over {register(bearer|custom|none), delete, notify with every per-hook outcome in {200,500,transport error,unreadable body}, restart} on two URLs for max_tries 1..3, state = webhooks table + counter model, successor = replay on a fresh SQLite store; call log of a scripted WebhookTargetClient and GET /webhook compared with the model after every step; every outcome sequence of length <=3 additionally through the production HTTP client against a loopback server, and two webhooks of every ordered pair of authorisation kinds served by one production client (both registered / first deleted / first deactivated): each target must receive exactly its own authorisation header (of the header names configured in the run) and no secret under another name",
         text="Exhaustive to depth 6 (quick) / 9 (thorough); the evidence says per max_tries whether the state set closed below the depth bound. Events are delivered one at a time, as the statement says.",
         design="§3 C12",
     ),
